@@ -204,14 +204,27 @@ class Cache(object):
         return orig_seq
 
     def _dump_flow_and_yield(self, flow):
-        # fill cache and yield values
-        with open(self._filename, "wb") as f:
-            dump = lambda val: self._dump(val, f, self.protocol)
-            for val in flow:
-                # if there were an error in a next element,
-                # our value will be saved first (before yielding)
-                dump(val)
-                yield val
+        # fill cache and yield values.
+        # Values are written to a temporary file, which gets the name
+        # of the cache only when the flow is exhausted. If the run
+        # is interrupted (any element raises, or this generator
+        # is closed), no truncated cache is left to be loaded later.
+        tmp_filename = self._filename + ".tmp"
+        try:
+            with open(tmp_filename, "wb") as f:
+                dump = lambda val: self._dump(val, f, self.protocol)
+                for val in flow:
+                    # if there were an error in a next element,
+                    # our value will be saved first (before yielding)
+                    dump(val)
+                    yield val
+        except BaseException:
+            # including GeneratorExit
+            if os.path.exists(tmp_filename):
+                os.remove(tmp_filename)
+            raise
+        # os.replace (Python 3) overwrites an existing cache on all platforms
+        getattr(os, "replace", os.rename)(tmp_filename, self._filename)
 
 
     def _load_flow(self):
